@@ -109,7 +109,7 @@ PROPS = {
                 rule="filters (documented-interface table filter, keyword-extended filter, LocalBioFilter, empty) x "
                      "k, and masks x dtype for the valid graph; non-trivial = mask neither empty nor full"),
     "C12": dict(level="proof", theorems=T("C12", "C12_valid_all", "C12_last", "C12_window_conj", "C12_revcomp",
-                                          "C12_foreign", "C12_isInfix", "C12_accepted") + T("C12b", "C12_thresholds", "C12_exact_consistent") + C02B + TIE_BF + BFCOR["C12"],
+                                          "C12_foreign", "C12_isInfix", "C12_accepted") + T("C12b", "C12_thresholds", "C12_exact_consistent") + T("C12c", "C12_float_exact", "C12_float_near") + C02B + TIE_BF + BFCOR["C12"],
                 tie="biofilter", gens=["C12", "GENBF"],
                 rule="(configuration, string) pairs incl. biased strands, foreign characters, k up to 25; "
                      "non-trivial = toggling one rule flips the verdict",
@@ -147,6 +147,7 @@ PROPS = {
     "C17": dict(level="proof", theorems=T("C17", "C17_step_bounds", "C17_le_four", "C17_arcless", "C17_regular", "C17_certificate_upper", "C17_certificate_lower") + T("C17b", "C17_capStep_entry", "C17_settled_residual", "C17_stop_certificate", "C17_certificate_rat", "C17_stop_accuracy") +
                 T("C17c", "C17F_rowSum", "C17F_stop_certificate", "C17F_stop_accuracy", "C17F_step_ok") +
                 T("C17d", "C17F_step_bounds", "C17F_total", "C17F_le_four", "C17F_arcless", "C17F_regular") +
+                T("C17e", "C17F_randomStarts_in01", "C17F_seeded") +
                 T("FloatSpec", "roundPos_spec", "roundDouble_isB64", "roundDouble_nearest", "roundDouble_none_iff", "roundDouble_of_isB64"),
                 not_proved=["that the stopping rule fires within the iteration budget with a smallest entry delta large enough for 1e-4 "
                             "under the spectral-gap precondition (needs Perron-Frobenius convergence RATES): TESTED against the "
